@@ -85,17 +85,41 @@ func body(nclients int, withInproc, withWS bool) func(x *harness.X) {
 		lib.Reset()
 		s := &st{est: map[string]int{}, fin: map[string]int{}}
 		x.Vars["st"] = s
-		s.stage = rt.Choose(4) // when the closer is released
-		sendMsg := rt.Choose(2) == 1
+		s.stage = rt.Choose(6) // when the closer is released; 4: Close is called from inside the message handler, 5: from inside the Established callback
+		sendMsg := rt.Choose(2) == 1 || s.stage == 4
 		// what the last client does: a normal session, a handshake the server refuses
 		// (unknown role), or a handshake that stalls after the server's first answer
 		lastKind := []string{"normal", "refused", "stalled", "drops", "cb-finish", "cb-fail"}[rt.Choose(6)]
 		s.lastKind = lastKind
+		var srv *lime.Server
+		closeStarted := false
+		doClose := func(from string) {
+			if closeStarted {
+				return
+			}
+			closeStarted = true
+			for {
+				s.closeTries++
+				err := srv.Close()
+				if err != nil && strings.Contains(err.Error(), "not listening") && s.closeTries < 50 && !s.lasRet {
+					time.Sleep(time.Millisecond) // the property is about a serving server
+					continue
+				}
+				s.closeErr = err
+				break
+			}
+			s.closeRet = true
+			s.closeAt = rt.Elapsed()
+			x.Obs("Close (%s) returned err=%v tries>1=%v", from, s.closeErr != nil, s.closeTries > 1)
+		}
 		mux := &lime.EnvelopeMux{}
 		mux.MessageHandlerFunc(nil, func(ctx context.Context, m *lime.Message, snd lime.Sender) error {
 			id, _ := lime.ContextSessionID(ctx)
 			s.order = append(s.order, "handler:"+id)
 			x.Obs("handler %s", m.ID)
+			if s.stage == 4 {
+				doClose("from the message handler")
+			}
 			return nil
 		})
 		cfg := lime.NewServerConfig()
@@ -115,6 +139,9 @@ func body(nclients int, withInproc, withWS bool) func(x *harness.X) {
 			s.est[id]++
 			s.order = append(s.order, "est:"+id)
 			x.Obs("established-callback")
+			if s.stage == 5 {
+				doClose("from the Established callback")
+			}
 			if c.RemoteNode().Name == lastName && strings.HasPrefix(lastKind, "cb-") {
 				// the application ends the session from inside its Established callback
 				cctx, cancel := context.WithTimeout(context.Background(), 10*time.Second)
@@ -139,7 +166,7 @@ func body(nclients int, withInproc, withWS bool) func(x *harness.X) {
 		if withInproc {
 			listeners = append(listeners, lime.NewBoundListener(lime.NewInProcessTransportListener(inaddr), inaddr))
 		}
-		srv := lime.NewServer(cfg, mux, listeners...)
+		srv = lime.NewServer(cfg, mux, listeners...)
 		stageCh := []chan struct{}{make(chan struct{}), make(chan struct{}), make(chan struct{}), make(chan struct{})}
 		var stageOnce [4]sync.Once
 		reached := func(i int) { stageOnce[i].Do(func() { close(stageCh[i]) }) }
@@ -242,26 +269,15 @@ func body(nclients int, withInproc, withWS bool) func(x *harness.X) {
 		// closer: released at the chosen stage
 		go func() {
 			switch s.stage {
-			case 3:
-				// after the server had time to handle what the clients sent
+			case 3, 4, 5:
+				// after the server had time to handle what the clients sent (4, 5: unless a
+				// handler or callback has closed the server by then)
 				<-stageCh[2]
 				time.Sleep(2 * time.Second)
 			default:
 				<-stageCh[s.stage]
 			}
-			for {
-				s.closeTries++
-				err := srv.Close()
-				if err != nil && strings.Contains(err.Error(), "not listening") && s.closeTries < 50 && !s.lasRet {
-					time.Sleep(time.Millisecond) // the property is about a serving server
-					continue
-				}
-				s.closeErr = err
-				break
-			}
-			s.closeRet = true
-			s.closeAt = rt.Elapsed()
-			x.Obs("Close returned err=%v tries>1=%v", s.closeErr != nil, s.closeTries > 1)
+			doClose("from a goroutine of the application")
 		}()
 		for i := 0; i < 6; i++ {
 			rt.Quiesce()
@@ -401,7 +417,7 @@ func main() {
 	harness.Main(harness.Check{
 		Property: "C18",
 		Level:    "model_checking",
-		Rule:     "1-2 clients (real ClientChannel over the real TCP transport on virtual pipes; optionally one over the in-process listener or over a WebSocket connection); the last client is a normal session, one the server refuses (unknown role), a raw client whose handshake stalls after the server's first answer, a client that drops its connection once established, or one whose session the application finishes/fails from inside its Established callback x moment at which Server.Close is released {start-up, a client dialled, a client established, traffic handled} x {idle, one message} as data choices; all schedules within the deviation bound (delay bounding) from ListenAndServe's start; distinct outcome = distinct observation log",
+		Rule:     "1-2 clients (real ClientChannel over the real TCP transport on virtual pipes; optionally one over the in-process listener or over a WebSocket connection); the last client is a normal session, one the server refuses (unknown role), a raw client whose handshake stalls after the server's first answer, a client that drops its connection once established, or one whose session the application finishes/fails from inside its Established callback x moment at which Server.Close is released {start-up, a client dialled, a client established, traffic handled, from inside the message handler, from inside the Established callback} x {idle, one message} as data choices; all schedules within the deviation bound (delay bounding) from ListenAndServe's start; distinct outcome = distinct observation log",
 		Assume:   []string{"state pruning is off (Server.shutdown and Client fields are not behind hooked operations)", "real TCP/WebSocket listeners (OS sockets, HTTP server) are not explored under the scheduler: connections reach the server through the pipe listener"},
 		Scenarios: []harness.Scenario{
 			mk("1client", 1, false, 1, 2),
